@@ -141,7 +141,37 @@ func (e *LOW) Error() string {
 }
 func (e *LOW) Unwrap() error { return e.C }
 
+// HDLeaf: a third-party leaf that carries its own hint and detail
+// (errors.ErrorHinter / errors.ErrorDetailer, pgerror style); registered
+// with a leaf encoder/decoder so that both survive the network.
+type HDLeaf struct{ Msg, Hint, Detail string }
+
+func (e *HDLeaf) Error() string       { return e.Msg }
+func (e *HDLeaf) ErrorHint() string   { return e.Hint }
+func (e *HDLeaf) ErrorDetail() string { return e.Detail }
+
 // ---- wrappers -------------------------------------------------------
+
+// HDWrap: a third-party WRAPPER with its own hint and detail; registered.
+type HDWrap struct {
+	C                 error
+	Msg, Hint, Detail string
+}
+
+func (e *HDWrap) Error() string       { return e.Msg + ": " + e.C.Error() }
+func (e *HDWrap) Unwrap() error       { return e.C }
+func (e *HDWrap) ErrorHint() string   { return e.Hint }
+func (e *HDWrap) ErrorDetail() string { return e.Detail }
+
+// NCWrap: a VALUE-typed wrapper that is not comparable (slice field).
+type NCWrap struct {
+	C   error
+	Msg string
+	X   []int
+}
+
+func (e NCWrap) Error() string { return e.Msg + ": " + e.C.Error() }
+func (e NCWrap) Cause() error  { return e.C }
 
 // NoFmtWrap: Unwrap-only, no Format.
 type NoFmtWrap struct {
@@ -285,6 +315,30 @@ func init() {
 		func(_ context.Context, cause error, msg string, _ []string, _ proto.Message) error {
 			return &ElideWrap{C: cause, Msg: msg}
 		})
+	hl := errbase.GetTypeKey((*HDLeaf)(nil))
+	errbase.RegisterLeafEncoder(hl, func(_ context.Context, err error) (string, []string, proto.Message) {
+		e := err.(*HDLeaf)
+		return e.Msg, nil, &errorspb.StringsPayload{Details: []string{e.Msg, e.Hint, e.Detail}}
+	})
+	errbase.RegisterLeafDecoder(hl, func(_ context.Context, _ string, _ []string, payload proto.Message) error {
+		m, ok := payload.(*errorspb.StringsPayload)
+		if !ok || len(m.Details) != 3 {
+			return nil
+		}
+		return &HDLeaf{Msg: m.Details[0], Hint: m.Details[1], Detail: m.Details[2]}
+	})
+	hw := errbase.GetTypeKey((*HDWrap)(nil))
+	errbase.RegisterWrapperEncoder(hw, func(_ context.Context, err error) (string, []string, proto.Message) {
+		e := err.(*HDWrap)
+		return e.Msg, nil, &errorspb.StringsPayload{Details: []string{e.Msg, e.Hint, e.Detail}}
+	})
+	errbase.RegisterWrapperDecoder(hw, func(_ context.Context, cause error, _ string, _ []string, payload proto.Message) error {
+		m, ok := payload.(*errorspb.StringsPayload)
+		if !ok || len(m.Details) != 3 {
+			return nil
+		}
+		return &HDWrap{C: cause, Msg: m.Details[0], Hint: m.Details[1], Detail: m.Details[2]}
+	})
 	mk := errbase.GetTypeKey((*MultiReg)(nil))
 	errbase.RegisterMultiCauseEncoder(mk,
 		func(_ context.Context, err error) (string, []string, proto.Message) {
